@@ -5,6 +5,10 @@
 //   set <field> <hex>        typed setter; <hex> = the little-endian bytes of the field value (size of the field)
 //   add <bit> <hex>          RadioTap::add_option(option(1 << bit, bytes))
 //   ser <hex|->              serialize a copy carrying the 802.11 frame <hex> (or no inner PDU) and re-parse the bytes
+//   walk <hex|->             Utils::RadioTapParser over exactly these bytes (an options buffer): every field the
+//                            `while (has_fields()) advance_field()` loop reports (namespace index/type, bit, offset,
+//                            current_option()), the final state, and has_field() of all 32 single-bit flags
+//   skipto <bit> <hex|->     RadioTapParser(bytes).skip_to_field(1 << bit), then current_option()
 // One canonical result line per op: payload, present(), header_size(), trailer_size(), every getter (value or
 // exception name).
 #include "common.h"
@@ -12,6 +16,7 @@
 #include <tins/dot11/dot11_base.h>
 #include <tins/dot11/dot11_data.h>
 #include <tins/rawpdu.h>
+#include <tins/utils/radiotap_parser.h>
 #include <memory>
 using namespace Tins;
 using namespace vh;
@@ -108,12 +113,81 @@ static bool set_field(RadioTap& r, const std::string& f, const bytes& v) {
     return false;
 }
 
+static unsigned bit_of(uint32_t flag) {
+    unsigned b = 0;
+    while (b < 32 && !((flag >> b) & 1u)) ++b;
+    return b;
+}
+
+static char ns_letter(Utils::RadioTapParser::NamespaceType t) {
+    return t == Utils::RadioTapParser::RADIOTAP_NS ? 'R' : t == Utils::RadioTapParser::VENDOR_NS ? 'V' : 'U';
+}
+
+// current_option() indexes RADIOTAP_METADATA[current_bit_]: only defined while a field is current
+static std::string option_text(Utils::RadioTapParser& p) {
+    if (bit_of(uint32_t(p.current_field())) >= Utils::RadioTapParser::MAX_RADIOTAP_FIELD) return "none";
+    return guarded([&](std::ostream& s) {
+        RadioTap::option o = p.current_option();
+        s << to_hex(o.data_ptr(), o.data_size());
+    });
+}
+
+static std::string walk(const bytes& in) {
+    std::vector<uint8_t> exact(in);
+    exact.shrink_to_fit();
+    Utils::RadioTapParser p(exact);
+    const uint8_t* base = exact.empty() ? 0 : exact.data();
+    std::ostringstream o;
+    o << "walk";
+    int guard = 0;
+    while (p.has_fields()) {
+        if (++guard > 200) { o << " runaway"; return o.str(); }
+        o << " f=" << p.current_namespace_index() << ns_letter(p.current_namespace()) << ":"
+          << bit_of(uint32_t(p.current_field())) << "@" << (p.current_option_ptr() - base) << "=" << option_text(p);
+        p.advance_field();
+    }
+    bool again = p.advance_field();
+    uint32_t mask = 0;
+    for (unsigned b = 0; b < 32; ++b)
+        if (p.has_field(RadioTap::PresentFlags(uint32_t(1) << b))) mask |= uint32_t(1) << b;
+    o << " end adv=" << (again ? 1 : 0) << " ns=" << p.current_namespace_index() << ns_letter(p.current_namespace())
+      << " hf=" << mask;
+    return o.str();
+}
+
+static std::string skipto(unsigned bit, const bytes& in) {
+    std::vector<uint8_t> exact(in);
+    exact.shrink_to_fit();
+    Utils::RadioTapParser p(exact);
+    const uint8_t* base = exact.empty() ? 0 : exact.data();
+    bool r = p.skip_to_field(RadioTap::PresentFlags(uint32_t(1) << bit));
+    std::ostringstream o;
+    o << "skipto r=" << (r ? 1 : 0) << " ns=" << p.current_namespace_index() << ns_letter(p.current_namespace())
+      << " bit=" << bit_of(uint32_t(p.current_field())) << " off=" << (p.current_option_ptr() - base)
+      << " opt=" << (r ? option_text(p) : std::string("none"));
+    return o.str();
+}
+
 int main() {
     std::unique_ptr<RadioTap> rt;
     const bytes tail = tail_frame();
     return line_loop([&](const std::string& line) -> std::string {
         auto w = words(line);
         if (w.size() == 1 && w[0] == "tail") return "tail " + to_hex(tail);
+        if (w.size() == 2 && w[0] == "walk") {
+            bytes b;
+            if (!parse_hex(w[1], b)) return "bad-op";
+            rt.reset(new RadioTap());          // a case start: leaves a default header behind, like `new`
+            return walk(b);
+        }
+        if (w.size() == 3 && w[0] == "skipto") {
+            bytes b;
+            if (!parse_hex(w[2], b)) return "bad-op";
+            unsigned bit = unsigned(std::stoul(w[1]));
+            if (bit > 31) return "bad-op";
+            rt.reset(new RadioTap());
+            return skipto(bit, b);
+        }
         if (!rt) rt.reset(new RadioTap());   // inside the loop: an exception of the constructor becomes a result line
         if (w.size() == 1 && w[0] == "new") {
             rt.reset(new RadioTap());
